@@ -87,8 +87,19 @@ func (g *pg) body() gen.Val {
 	return gen.L(items...)
 }
 
+// bodyForms: a body of one to three forms: a form that fails BEFORE the last
+// one leaves the function by another path than the last form does.
+func (g *pg) bodyForms() []gen.Val {
+	var out []gen.Val
+	for i, n := 0, g.n(0, 3, "nlead"); i < n-1; i++ {
+		g.stats["body-several-forms"]++
+		out = append(out, g.ref())
+	}
+	return append(out, g.body())
+}
+
 func (g *pg) stmt(depth int) gen.Val {
-	switch g.n(0, 33, "stmt") {
+	switch g.n(0, 34, "stmt") {
 	case 0, 1:
 		g.stats["in-package"]++
 		p := g.pkg()
@@ -131,7 +142,7 @@ func (g *pg) stmt(depth int) gen.Val {
 		if g.seenUse {
 			g.stats["redefinition-after-use"]++
 		}
-		return gen.L(gen.S(g.op("defun")), gen.S(g.sym()), gen.L(gen.S("x")), g.body())
+		return gen.L(append([]gen.Val{gen.S(g.op("defun")), gen.S(g.sym()), gen.L(gen.S("x"))}, g.bodyForms()...)...)
 	case 9:
 		g.stats["defmacro"]++
 		// the expansion mentions an UNQUALIFIED name: it resolves where the
@@ -165,6 +176,19 @@ func (g *pg) stmt(depth int) gen.Val {
 			used = "lisp"
 			g.stats["use-package-lisp"]++
 		}
+		if g.n(0, 3, "several") == 0 {
+			// several packages in one call, symbol and string names mixed
+			g.stats["use-package-several"]++
+			args := []gen.Val{gen.QS(used)}
+			for i, n := 0, g.n(1, 2, "nmore"); i < n; i++ {
+				if g.n(0, 2, "str") == 0 {
+					args = append(args, gen.Str(g.pkg()))
+				} else {
+					args = append(args, gen.QS(g.pkg()))
+				}
+			}
+			return gen.Call(g.op("use-package"), args...)
+		}
 		if g.n(0, 3, "str") == 0 {
 			return gen.Call(g.op("use-package"), gen.Str(used))
 		}
@@ -175,6 +199,16 @@ func (g *pg) stmt(depth int) gen.Val {
 		// constants and keywords cannot be bound
 		g.stats["bind-constant-or-keyword"]++
 		target := g.pick("const", "true", "false", ":kw", ":a")
+		if target[0] != ':' && g.n(0, 2, "qualified-constant") == 0 {
+			// pkg:true is the constant too: (set 'pa:true 1) is refused, pa:true
+			// is true
+			g.stats["bind-qualified-constant"]++
+			target = g.pkgOrLang() + ":" + target
+			if g.n(0, 2, "read") == 0 {
+				return gen.Call("lisp:list", gen.S(target))
+			}
+			return gen.L(gen.S("lisp:progn"), gen.Call(g.op("set"), gen.QS(target), gen.I(1)), gen.Call("lisp:list", gen.S(target)))
+		}
 		switch g.n(0, 7, "bindform") {
 		case 0:
 			return gen.L(gen.S("let"), gen.L(gen.L(gen.S(target), gen.I(1))), gen.S(target))
@@ -250,9 +284,21 @@ func (g *pg) stmt(depth int) gen.Val {
 		return gen.L(gen.S("let"), gen.L(gen.L(gen.S(name), g.newVal())), gen.Call("list", gen.S(name), gen.S(g.pkg()+":"+name)))
 	case 19:
 		// a closure defined in one package and called later
-		return gen.Call("set", gen.QS(g.sym()), gen.L(gen.S("lambda"), gen.L(gen.S("x")), g.body()))
+		return gen.Call(g.op("set"), gen.QS(g.sym()), gen.L(append([]gen.Val{gen.S(g.op("lambda")), gen.L(gen.S("x"))}, g.bodyForms()...)...))
 	case 20:
-		return gen.Call(g.op("funcall"), gen.QS(g.sym()), gen.I(1))
+		des := g.sym()
+		if g.n(0, 1, "qualified-designator") == 0 {
+			// pkg:name as a function designator reaches unexported functions
+			g.stats["qualified-designator"]++
+			des = g.pkgOrLang() + ":" + des
+		}
+		switch g.n(0, 3, "designator-use") {
+		case 0:
+			return gen.Call(g.op("map"), gen.QS("list"), gen.QS(des), gen.QL(gen.I(1), gen.I(2)))
+		case 1:
+			return gen.Call(g.op("apply"), gen.QS(des), gen.QL(gen.I(1)))
+		}
+		return gen.Call(g.op("funcall"), gen.QS(des), gen.I(1))
 	case 24, 25, 26, 27:
 		// a local binding (every binding form) of a name of any kind, used in
 		// head and value position
@@ -269,6 +315,8 @@ func (g *pg) stmt(depth int) gen.Val {
 		}
 		name, kind := g.wideName()
 		return g.shadowForm(name, kind, 1)
+	case 33:
+		return g.callback()
 	case 32:
 		// references of every spelling to a name the language package may have
 		// gained meanwhile
@@ -305,7 +353,10 @@ type Case struct {
 func genCase() *rapid.Generator[Case] {
 	return rapid.Custom(func(t *rapid.T) Case {
 		g := &pg{t: t, stats: map[string]int{}, curGuess: "user"}
-		n := rapid.IntRange(3, 22).Draw(t, "nstmts")
+		// round 6 added a third to the statement grammar; programs are longer by the
+		// same factor so that every older production (and every COMBINATION of older
+		// productions) is as frequent per program as before
+		n := rapid.IntRange(4, 32).Draw(t, "nstmts")
 		var forms []gen.Val
 		var host []HostPkg
 		g.pkgs = append(g.pkgs, pkgNames...)
@@ -396,6 +447,45 @@ func genCase() *rapid.Generator[Case] {
 			add(gen.L(gen.S("defun"), gen.S("probe-it"), gen.L(), gen.S(sym)))
 			add(gen.L(gen.S("probe-it")))
 		}
+		if rapid.IntRange(0, 7).Draw(t, "scripted-macro") == 0 {
+			// a directed opening: a macro of P whose BODY works at expansion time
+			// with an unexported global of P, expanded from Q (which may bind the
+			// same name differently): the body runs with P current
+			g.stats["scripted-expansion-time-work"]++
+			P, Q := g.pkg(), g.pkg()
+			sym, mac := g.sym(), "m"
+			if sym == mac {
+				mac = "g"
+			}
+			add := func(v gen.Val) { forms = append(forms, g.wrap(v)) }
+			add(gen.Call("lisp:in-package", gen.QS(P)))
+			add(gen.Call("lisp:set", gen.QS(sym), g.newVal()))
+			var work gen.Val
+			switch g.n(0, 2, "work") {
+			case 0:
+				work = gen.S(sym)
+			case 1:
+				work = gen.Call("lisp:set", gen.QS(sym), g.newVal())
+			default:
+				work = gen.Call("lisp:progn", gen.Call("lisp:set!", gen.S(sym), g.newVal()), gen.S(sym))
+			}
+			add(gen.L(gen.S("lisp:defmacro"), gen.S(mac), gen.L(gen.S("x")),
+				gen.L(gen.S("lisp:quasiquote"), gen.L(gen.S("lisp:list"), gen.L(gen.S("unquote"), gen.S("x")), gen.L(gen.S("lisp:quote"), gen.L(gen.S("unquote"), work)), gen.S(sym)))))
+			if g.n(0, 1, "export-macro") == 0 {
+				add(gen.Call("lisp:export", gen.QS(mac)))
+			}
+			add(gen.Call("lisp:in-package", gen.QS(Q)))
+			if g.n(0, 1, "bind-in-q") == 0 {
+				add(gen.Call("lisp:set", gen.QS(sym), g.newVal()))
+			}
+			if g.n(0, 1, "use") == 0 {
+				add(gen.Call("lisp:use-package", gen.QS(P)))
+				add(gen.L(gen.S(mac), gen.I(1)))
+			}
+			add(gen.L(gen.S(P+":"+mac), gen.I(2)))
+			add(gen.Call("lisp:list", gen.S(P+":"+sym)))
+			g.curGuess = Q
+		}
 		if rapid.IntRange(0, 3).Draw(t, "scripted") == 0 {
 			// a directed opening: Q uses P, P changes, Q uses P again -- the
 			// second use-package copies the bindings as they are THEN
@@ -456,7 +546,10 @@ func check(cs Case, c *vcommon.Ctx) *vcommon.Failure {
 	// the current package after every load
 	rt := vcommon.NewRuntime(vcommon.Cfg{MaxSteps: 200000, MaxPhysical: 2000, NoStdlib: true, ProbesInLang: true})
 	for k, n := range cs.Stats {
-		if n > 0 {
+		if n > 0 && strings.HasPrefix(k, "excluded/") {
+			// a production the generator refused by construction (counted)
+			c.Class(k)
+		} else if n > 0 {
 			c.Class("has/" + k)
 		}
 	}
@@ -606,7 +699,7 @@ func check(cs Case, c *vcommon.Ctx) *vcommon.Failure {
 	// the pristine language package: programs that export or rebind names IN
 	// the language package are judged by the reference interpreter above)
 	for _, pn := range []string{"pa", "pb", "pc", "pd", "pe"} {
-		if p := reg.Package(pn); p != nil && cs.Stats["touches-language-package"] == 0 && cs.Stats["wide-rebind"] == 0 {
+		if p := reg.Package(pn); p != nil && cs.Stats["touches-language-package"] == 0 && cs.Stats["rebinds-language-name"] == 0 {
 			lang := reg.Package(lisp.DefaultLangPackage)
 			for _, name := range []string{"car", "let", "defun", "handler-bind", "+"} {
 				lv, _ := lang.Symbol(name)
